@@ -20,6 +20,14 @@ Definition head_obj (a : iargs) (w : option wdv) : obj :=
         (ia_hours a) (ia_minutes a) (ia_seconds a) (ia_microseconds a)
         (ia_year a) (ia_month a) (ia_day a) (ia_hour a) (ia_minute a) (ia_second a) (ia_microsecond a) w 0.
 
+Lemma obj_ext : forall o o',
+  o_years o = o_years o' -> o_months o = o_months o' -> o_days o = o_days o' -> o_leapdays o = o_leapdays o' ->
+  o_hours o = o_hours o' -> o_minutes o = o_minutes o' -> o_seconds o = o_seconds o' ->
+  o_microseconds o = o_microseconds o' -> o_year o = o_year o' -> o_month o = o_month o' -> o_day o = o_day o' ->
+  o_hour o = o_hour o' -> o_minute o = o_minute o' -> o_second o = o_second o' ->
+  o_microsecond o = o_microsecond o' -> o_weekday o = o_weekday o' -> o_has_time o = o_has_time o' -> o = o'.
+Proof. intros [] []; cbn; intros; subst; reflexivity. Qed.
+
 Theorem gen_init_head_correct : forall a,
   gen_init_head a =
   if negb (q_is_int (fst (ia_years a)) (snd (ia_years a))) || negb (q_is_int (fst (ia_months a)) (snd (ia_months a)))
@@ -34,7 +42,15 @@ Proof.
   destruct (negb (Z.pos yd * Z.quot yn (Z.pos yd) =? yn) || negb (Z.pos md * Z.quot mn (Z.pos md) =? mn));
     [reflexivity |].
   destruct w as [|k|k n]; cbn [wdarg_is_int wdarg_int wdarg_obj conv_wd bind]; unfold weekdays_getitem;
-    try destruct ((-7 <=? k) && (k <? 7)); reflexivity.
+    try destruct ((-7 <=? k) && (k <? 7)); cbn [bind];
+    first [ reflexivity
+          | f_equal; apply obj_ext;
+            cbv beta iota zeta delta [set_o_years set_o_months set_o_days set_o_leapdays set_o_hours set_o_minutes
+              set_o_seconds set_o_microseconds set_o_has_time put_o_year put_o_month put_o_day put_o_hour put_o_minute
+              put_o_second put_o_microsecond put_o_weekday o_years o_months o_days o_leapdays o_hours o_minutes
+              o_seconds o_microseconds o_year o_month o_day o_hour o_minute o_second o_microsecond o_weekday
+              o_has_time];
+            first [ reflexivity | lia ] ].
 Qed.
 
 
